@@ -16,12 +16,13 @@ Quirks transcribed, not repaired:
  * the confirm range is computed in uint64: `no − range + 1` wraps when `range > no + 1` (`rangeMin`);
  * getPreLIB stops at the first (newest) element whose counter is zero — whether it was just decremented
    or was zero before and lies outside the range;
- * updateLIB has no monotonicity guard;
  * after a restart the Status object holds a *fresh* libStatus (LIB number 0) until the first Update
    (Status.load is lazy), so NeedReorganization/VerifyTimestamp see LIB = 0 in between;
  * load() replays stored blocks begRecoBlockNo(end)..end into a scratch status without gc and without
-   LIB updates and overwrites only the proposed entries whose pre-LIB number is > 0; when beg = end it
-   loads nothing at all.
+   LIB updates and overwrites only the proposed entries whose pre-LIB number is > 0 (entries of other
+   producers keep what they had, possibly blocks of an abandoned branch); when beg = end it loads nothing.
+(Since the repairs a61f1aeb / db1b9b14 the reload path uses the same confirmsRequired and updateLIB ignores a
+lower candidate.)
 The confirms list is kept NEWEST FIRST (Go: list.Back() is the head here).
 -/
 import Aergo.Gen.LibQuorum
@@ -211,15 +212,17 @@ def replay (n : Node) (tmp : LS) : Nat → Nat → Option LS
     | none => none
     | some b => replay n (update (addConfirmInfo tmp b) "").1 (i + 1) cnt
 
-/-- `loadPlibStatus(beg, end, confirmsRequired)`. NB the Go code builds the scratch status with
-`newLibStatus(confirmsRequired)`, whose parameter is a producer COUNT: the scratch status therefore requires
-`confirmsRequired(confirmsRequired(n))` confirmations (equal to `confirmsRequired n` only for n ≤ 4). -/
+/-- `newLibStatusWithConfirms(confirmsRequired)`: for callers that already hold the confirmation count. -/
+def newLSWithConfirms (genesis : BI) (self : String) (cr : Nat) : LS :=
+  { newLS genesis self 0 with cr := cr }
+
+/-- `loadPlibStatus(beg, end, confirmsRequired)`: the scratch status requires the same number of confirmations. -/
 def loadPlibStatus (n : Node) (beg endNo cr : Nat) : Option LS :=
   if beg == endNo then none
   else if beg > endNo then none
   else
     let beg := if beg == 0 then 1 else beg
-    replay n (newLS n.genesis n.self cr) beg (endNo + 1 - beg)
+    replay n (newLSWithConfirms n.genesis n.self cr) beg (endNo + 1 - beg)
 
 def overwriteP (dst : List (String × PL)) : List (String × PL) → List (String × PL)
   | [] => dst
@@ -236,12 +239,11 @@ def load (n : Node) (ls : LS) (endNo : Nat) : LS :=
               prpsd := overwriteP ls.prpsd tmp.prpsd }
 
 /-- Node start: `bp.NewCluster` (size = genesis producer count), `NewStatus` on the existing chain DB: fresh
-Status, boot loader built from the DB. `bootLoader.confirmsRequired` is the fresh status' confirmsRequired and is
-again handed to `newLibStatus` as a producer count (see `loadPlibStatus`). -/
+Status, boot loader built from the DB with the fresh status' confirmsRequired (`newLibStatusWithConfirms`). -/
 def restart (n : Node) : Node :=
   let size := n.gbps.length
   let fresh := newLS n.genesis n.self size
-  let blFresh := newLS n.genesis n.self fresh.cr
+  let blFresh := newLSWithConfirms n.genesis n.self fresh.cr
   let bestId := (hashByNo n n.latest).getD ""
   let bl := match n.saved with
     | none => blFresh
@@ -259,8 +261,9 @@ def statusUpdate (n : Node) (b : Blk) (hint : String) : Node :=
     let ls1 := addConfirmInfo n.ls b
     if ls1.confirms.isEmpty then { n with panicked := true } else
     let (ls2, lib) := update ls1 hint
+    -- updateLIB: the LIB never moves backwards
     let ls3 := match lib with
-      | some l => { ls2 with lib := l }
+      | some l => if l.no < ls2.lib.no then ls2 else { ls2 with lib := l }
       | none => ls2
     let ls4 := gc ls3 []
     { n with ls := { ls4 with cr := confirmsRequired n.size }, best := b.id }
